@@ -293,8 +293,12 @@ Definition mk_comm (o : aop) (a b : term) : term :=      (* And / Or / Xor *)
    functions of Int32.arith (division and remainder by zero are 0) *)
 Definition other_r (o : aop) (a : term) (k : Z) : term :=
   match o with
-  | Div => if k =? 0 then TC 0 else if k =? 1 then a else TA o a (TC k)
-  | Mod => if (k =? 0) || (k =? 1) || (k =? -1) then TC 0 else TA o a (TC k)
+  | Div => if k =? 0 then TC 0 else if k =? 1 then a
+           else if is01 a && ((2 <=? k) || (k <=? -2)) then TC 0     (* a 0/1 value divided by |k| >= 2 *)
+           else TA o a (TC k)
+  | Mod => if (k =? 0) || (k =? 1) || (k =? -1) then TC 0
+           else if is01 a && ((2 <=? k) || (k <=? -2)) then a         (* a 0/1 value modulo |k| >= 2 *)
+           else TA o a (TC k)
   | Pow => if k =? 0 then TC 1 else if k =? 1 then a else TA o a (TC k)
   | Shl | Shr => if k =? 0 then a else TA o a (TC k)
   | _ => TA o a (TC k)
@@ -740,14 +744,28 @@ Proof.
   { cbn [eval]. rewrite (wrap32_small k Hk). reflexivity. }
   destruct o; try exact G; cbn [other_r].
   - destruct (k =? 0) eqn:E0; [apply Z.eqb_eq in E0; subst; reflexivity|].
-    destruct (k =? 1) eqn:E1; [|exact G]. apply Z.eqb_eq in E1; subst.
-    cbn. rewrite Z.quot_1_r. symmetry. apply wrap32_small, Ha.
-  - destruct ((k =? 0) || (k =? 1) || (k =? -1)) eqn:E; [|exact G].
-    apply orb_true_iff in E as [E|E]; [apply orb_true_iff in E as [E|E]|]; apply Z.eqb_eq in E; subst.
-    + reflexivity.
-    + cbn. rewrite Z.rem_1_r. reflexivity.
-    + cbn. replace (Z.rem (ev a) (-1)) with 0; [reflexivity|].
-      symmetry. change (-1) with (- (1)). rewrite Z.rem_opp_r by lia. apply Z.rem_1_r.
+    destruct (k =? 1) eqn:E1.
+    { apply Z.eqb_eq in E1; subst. cbn. rewrite Z.quot_1_r. symmetry. apply wrap32_small, Ha. }
+    destruct (is01 a && ((2 <=? k) || (k <=? -2))) eqn:E2; [|exact G].
+    apply andb_true_iff in E2 as [E2 E3]. apply Z.eqb_neq in E0.
+    cbn [arith]. replace (k =? 0) with false by (symmetry; apply Z.eqb_neq; exact E0).
+    assert (K : 2 <= k \/ k <= -2) by (apply orb_true_iff in E3 as [E3|E3]; apply Z.leb_le in E3; auto).
+    destruct (is01_sound a E2) as [H|H]; rewrite H.
+    + rewrite Z.quot_0_l by exact E0. reflexivity.
+    + assert (Q : Z.quot 1 k = 0) by (apply Z.quot_small_iff; lia). rewrite Q. reflexivity.
+  - destruct ((k =? 0) || (k =? 1) || (k =? -1)) eqn:E.
+    { apply orb_true_iff in E as [E|E]; [apply orb_true_iff in E as [E|E]|]; apply Z.eqb_eq in E; subst.
+      + reflexivity.
+      + cbn. rewrite Z.rem_1_r. reflexivity.
+      + cbn. replace (Z.rem (ev a) (-1)) with 0; [reflexivity|].
+        symmetry. change (-1) with (- (1)). rewrite Z.rem_opp_r by lia. apply Z.rem_1_r. }
+    destruct (is01 a && ((2 <=? k) || (k <=? -2))) eqn:E2; [|exact G].
+    apply andb_true_iff in E2 as [E2 E3].
+    assert (K : 2 <= k \/ k <= -2) by (apply orb_true_iff in E3 as [E3|E3]; apply Z.leb_le in E3; auto).
+    cbn [arith]. replace (k =? 0) with false by (symmetry; apply Z.eqb_neq; lia).
+    destruct (is01_sound a E2) as [H|H]; rewrite H.
+    + rewrite Z.rem_0_l by lia. reflexivity.
+    + assert (Q : Z.rem 1 k = 1) by (apply Z.rem_small_iff; lia). rewrite Q. reflexivity.
   - destruct (k =? 0) eqn:E0; [apply Z.eqb_eq in E0; subst; reflexivity|].
     destruct (k =? 1) eqn:E1; [|exact G]. apply Z.eqb_eq in E1; subst.
     cbn [arith]. unfold pow32. rewrite Z.pow_1_r. symmetry. apply wrap32_small, Ha.
